@@ -133,6 +133,19 @@ func c10RandScript(r *rand.Rand) *c01Script {
 		sc.Connect = true
 	}
 	c01AddMedium(r, sc)
+	// delta-negotiated client subscriptions (drawn last)
+	if !sc.Server && !sc.Connect && !sc.Batch && r.Intn(4) == 0 {
+		sc.Delta, sc.NoFilter = true, true
+		// (no offset-less publications here: for a delta subscriber that branch of writePublication
+		// consults the channel context, which the model of the offset-less path does not have)
+		for _, ph := range sc.Phase {
+			for i := range ph {
+				if ph[i].K == "pub0" {
+					ph[i] = c01Op{K: "pub", Size: 100}
+				}
+			}
+		}
+	}
 	return sc
 }
 
@@ -175,10 +188,15 @@ func c10Corpus() []*c01Script {
 		{Connect: true, Pos: true, Batch: true, Phase: c01Phases(map[int][]c01Op{6: c01Ops(P(false), c01Op{K: "deliverx", Unsub: 1}, c01Op{K: "flush"})})},
 		// 15: the buffered publication must be discarded with the unsubscribe whatever the callback says at that moment
 		{Pos: true, JL: true, Batch: true, BatchReload: true, Unsub: 1, Phase: c01Phases(map[int][]c01Op{6: c01Ops(P(false), D(0), J, D(0)), 7: c01Ops(c01Op{K: "flush"}, P(false), D(0))})},
-		// 17, 18 (below): behind a channel medium, the insufficient-state marker reaches a plain / a positioned subscription
+		// 17, 20 (below): behind a channel medium, the insufficient-state marker reaches a plain / a positioned subscription
 		// 16: same, server-side unsubscribe
 		{JL: true, Batch: true, BatchReload: true, Unsub: 2, Phase: c01Phases(map[int][]c01Op{6: c01Ops(P(false), D(0)), 7: c01Ops(c01Op{K: "flush"})})},
 		{Medium: true, NoFilter: true, JL: true, Phase: c01Phases(map[int][]c01Op{6: c01Ops(P(false), D(0), c01Op{K: "mark"}, J, D(0), P0, D(0), P(false), D(0))})},
+		// 18: positioned subscription with fossil delta negotiated: the unsubscribe lands while the FIRST
+		// publication sits between its position update and the enqueue (the delta flag is written there)
+		{Pos: true, Delta: true, NoFilter: true, Phase: c01Phases(map[int][]c01Op{6: c01Ops(P(false), c01Op{K: "deliverx", Unsub: 1}), 7: c01Ops(P(false), D(0))})},
+		// 19: same, server API unsubscribe, after a first publication already went out
+		{Pos: true, Delta: true, NoFilter: true, JL: true, Phase: c01Phases(map[int][]c01Op{6: c01Ops(P(false), D(0), P(false), c01Op{K: "deliverx", Unsub: 2}, J, D(0))})},
 		{Medium: true, NoFilter: true, Pos: true, JL: true, Phase: c01Phases(map[int][]c01Op{6: c01Ops(P(false), D(0), c01Op{K: "mark"}, J, D(0), P(false), D(0))})},
 	}
 }
@@ -222,6 +240,14 @@ func TestVerifC10(t *testing.T) {
 		key := c10Key(sc, frames, world.phaseOf)
 		if key == "ok" && !c10OrderOK(frames, world.delivK) {
 			key = "push-overtakes"
+		}
+		if key == "ok" && world.subEnd {
+			for _, f := range frames {
+				if f.K == "unsubreply" || f.K == "unsubpush" || f.K == "disc" {
+					key = "channel-listed-after-end" // Client.IsSubscribed after the end went out
+					break
+				}
+			}
 		}
 		pushes, started := 0, false
 		for _, f := range frames {
